@@ -89,6 +89,14 @@ def catalogue():
         out.append(c)
         c = _copy(base); c["samplers"] = [{"method": method}]
         out.append(c)
+    # ... linear constraints with a variable transform: the neighbours have the same number of rows but other coefficients, and
+    # when things are re-used the TRANSFORM OBJECT is shared between them (same scales and offsets)
+    for k in range(3):
+        c = _copy(base); c["_transforms"] = {"var_scales": [2.0, 0.5, 1.0], "var_offsets": [0.1, 0.0, -0.2]}
+        c["linear_constraints"] = ({"coefficients": [[1.0, 1.0, 0.0]], "lower_bounds": [-INF], "upper_bounds": [0.2]} if k != 1 else
+                                   {"coefficients": [[8.0, -1.0, 0.5]], "lower_bounds": [-INF], "upper_bounds": [1.0]})
+        c["optimizer"]["max_functions"] = 5
+        out.append(c)
     return out
 
 
@@ -133,18 +141,27 @@ SHARED = {"pm": None, "plan": None, "step": None, "ctx": None, "sink": None, "co
 SEEDS = {1: 5, 2: 5 + 2 ** 32}          # gradient seeds used for the model's seeds 1 and 2 (differ only above bit 32)
 
 
-def run_once(cfg, seed, reuse, label):
+def run_once(cfg, seed, reuse, label, nest=False):
+    original = cfg
     cfg = _copy(cfg)
     seedfree = cfg.pop("_seedfree", False)
     tf = cfg.pop("_transforms", None)
     seedobj = cfg.pop("_seedobj", None)
-    transforms = None if tf is None else make_transforms(**tf)
+    if tf is not None and reuse:
+        # the transform object of an earlier run with equal scales / offsets is re-used as well
+        transforms = SHARED.setdefault("transforms", {}).setdefault(repr(tf), make_transforms(**tf))
+    else:
+        transforms = None if tf is None else make_transforms(**tf)
     cfg["gradient"]["seed"] = SEEDS.get(seed, seed)
     h, hp = hashlib.sha256(), hashlib.sha256()
     state = {"n": 0, "pert": False}
 
     def evaluator(variables, context):
         state["n"] += 1
+        if nest and state["n"] == 1:
+            # another optimization (same configuration, another seed, everything of its own) starts and completes inside this
+            # evaluator call: two evaluators and their samplers are alive at the same time
+            run_once(original, 77, False, "inner")
         np.random.seed(1000 + state["n"])             # interference DURING the run
         np.random.random(3)
         h.update(variables.tobytes()); h.update(context.realizations.tobytes())
@@ -182,11 +199,17 @@ def run_once(cfg, seed, reuse, label):
             SHARED["step"] = SHARED["plan"].add_step("optimizer")
         SHARED["sink"]["evaluator"], SHARED["sink"]["finished"] = evaluator, finished
         key = repr(cfg) + repr(tf) + repr(seedobj)
-        if key not in SHARED["configs"]:
-            if seedobj is not None:
-                cfg["optimizer"]["options"]["seed"] = np.random.default_rng(seedobj)
-            SHARED["configs"][key] = EnOptConfig.model_validate(cfg, context=transforms)
-        plan, step, cfg = SHARED["plan"], SHARED["step"], SHARED["configs"][key]
+        if tf is not None and "linear_constraints" in cfg:
+            # (a transform object remembers the row scaling of the configuration validated with it LAST: a configuration
+            #  with linear constraints is validated again before each run, as a user who shares the transform object must)
+            cfg = EnOptConfig.model_validate(cfg, context=transforms)
+        else:
+            if key not in SHARED["configs"]:
+                if seedobj is not None:
+                    cfg["optimizer"]["options"]["seed"] = np.random.default_rng(seedobj)
+                SHARED["configs"][key] = EnOptConfig.model_validate(cfg, context=transforms)
+            cfg = SHARED["configs"][key]
+        plan, step = SHARED["plan"], SHARED["step"]
     else:
         if seedobj is not None:
             cfg["optimizer"]["options"]["seed"] = np.random.default_rng(seedobj)
@@ -199,7 +222,7 @@ def run_once(cfg, seed, reuse, label):
     return h.hexdigest(), hp.hexdigest(), state["pert"] and not seedfree, outcome
 
 
-def run_in_child(index, seed, plugged, salt):
+def run_in_child(index, seed, plugged, salt, nest=False):
     """The same target run in a fresh interpreter process with another string-hash salt."""
     import json as _json
     import os
@@ -207,7 +230,7 @@ def run_in_child(index, seed, plugged, salt):
     import sys
     env = dict(os.environ, PYTHONHASHSEED=str(salt))
     code = ("import json,sys; from rv.drivers import c16; c16.STATE['plugged']=%r; "
-            "print('RVCHILD'+json.dumps(c16.run_once(c16.catalogue()[%d], %d, False, 'child')))" % (bool(plugged), index, seed))
+            "print('RVCHILD'+json.dumps(c16.run_once(c16.catalogue()[%d], %d, False, 'child', %r)))" % (bool(plugged), index, seed, bool(nest)))
     out = subprocess.run([sys.executable, "-c", code], env=env, capture_output=True, text=True, timeout=600, cwd=str(Path(__file__).resolve().parents[2]))
     for line in out.stdout.splitlines():
         if line.startswith("RVCHILD"):
@@ -224,11 +247,12 @@ def drive(sc):
     cfgs = {1: CATALOGUE[base], 2: CATALOGUE[(base + 1) % len(CATALOGUE)]}
     index = {1: base, 2: (base + 1) % len(CATALOGUE)}
     reuse = False
+    nest = False
     child = 0
     raw = []
     STATE["plugged"] = False
     if SHARED["plugged"]:              # a manager plugged by an earlier scenario of this process is not re-used
-        SHARED.update({"pm": None, "plan": None, "step": None, "ctx": None, "sink": None, "configs": {}, "plugged": False})
+        SHARED.update({"pm": None, "plan": None, "step": None, "ctx": None, "sink": None, "configs": {}, "plugged": False, "transforms": {}})
     for op in ops:
         if op["op"] == "reseed":
             np.random.seed(op["a"])
@@ -236,6 +260,8 @@ def drive(sc):
             np.random.random()
         elif op["op"] == "reuse":
             reuse = not reuse
+        elif op["op"] == "nest":
+            nest = not nest
         elif op["op"] == "proc":
             child = 0 if child else 1 + sum(1 for o in ops[:ops.index(op) + 1] if o["op"] == "proc")
         elif op["op"] == "plug":
@@ -247,9 +273,9 @@ def drive(sc):
             run_once(cfgs[op["a"]], 99, reuse, "other")
         else:
             if child:
-                t, p, hasp, outcome = run_in_child(index[op["a"]], op["b"], STATE["plugged"], 100 + child)
+                t, p, hasp, outcome = run_in_child(index[op["a"]], op["b"], STATE["plugged"], 100 + child, nest)
             else:
-                t, p, hasp, outcome = run_once(cfgs[op["a"]], op["b"], reuse, "target")
+                t, p, hasp, outcome = run_once(cfgs[op["a"]], op["b"], reuse, "target", nest)
             raw.append((op["a"], op["b"], t, p, hasp, outcome, STATE["plugged"]))
     ids = {}
     trace = []
@@ -265,7 +291,8 @@ def model_runs(tier):
     runs = [{"module": "MC_C16", "constants": {"L": 3 if tier == "quick" else 4}},
             {"module": "MC_C16", "constants": {"L": 3, "UsesGlobal": "TRUE", "Emit": "FALSE"}, "emit": False, "expect_violation": "Reproducible"},
             {"module": "MC_C16", "constants": {"L": 3, "UsesHistory": "TRUE", "Emit": "FALSE"}, "emit": False, "expect_violation": "Reproducible"},
-            {"module": "MC_C16", "constants": {"L": 3, "UsesProcess": "TRUE", "Emit": "FALSE"}, "emit": False, "expect_violation": "Reproducible"}]
+            {"module": "MC_C16", "constants": {"L": 3, "UsesProcess": "TRUE", "Emit": "FALSE"}, "emit": False, "expect_violation": "Reproducible"},
+            {"module": "MC_C16", "constants": {"L": 3, "UsesConcurrent": "TRUE", "Emit": "FALSE"}, "emit": False, "expect_violation": "Reproducible"}]
     return runs
 
 
@@ -281,6 +308,11 @@ def extra_scenarios(tier, seed):
         out.append({"ops": [{"op": "reuse", "a": 0, "b": 0}, {"op": "target", "a": 1, "b": 1}, {"op": "plug", "a": 0, "b": 0},
                             {"op": "target", "a": 1, "b": 1}, {"op": "reuse", "a": 0, "b": 0}, {"op": "target", "a": 1, "b": 1},
                             {"op": "target", "a": 1, "b": 2}], "force_base": k})
+    # the same run alone, with another optimization running inside it, and alone again
+    for k in range(n):
+        out.append({"ops": [{"op": "target", "a": 1, "b": 1}, {"op": "nest", "a": 0, "b": 0}, {"op": "target", "a": 1, "b": 1},
+                            {"op": "reuse", "a": 0, "b": 0}, {"op": "target", "a": 1, "b": 1}, {"op": "nest", "a": 0, "b": 0},
+                            {"op": "target", "a": 1, "b": 1}, {"op": "target", "a": 1, "b": 2}], "force_base": k})
     # the same run in this process and in two other interpreter processes (different string-hash salts)
     for k in range(n):
         out.append({"ops": [{"op": "target", "a": 1, "b": 1}, {"op": "proc", "a": 0, "b": 0}, {"op": "target", "a": 1, "b": 1},
